@@ -243,6 +243,18 @@ Fixpoint str_body (l : list N) : option (list N * list N) :=
     else pre [b] (str_body r)
   end.
 
+(* RFC 8259 section 7, the characters between the quotation marks:
+   char = unescaped / escape ( %x22 / %x5C / %x2F / b / f / n / r / t / uXXXX ) *)
+Definition is_hex (c : N) : bool := match hexv c with Some _ => true | None => false end.
+Inductive str_chars : list N -> Prop :=
+| sc_nil : str_chars []
+| sc_plain b l : 0x20 <= b -> b <> 0x22 -> b <> 0x5C -> str_chars l -> str_chars (b :: l)
+| sc_esc c l : In c [34; 92; 47; 98; 102; 110; 114; 116] -> str_chars l -> str_chars (92 :: c :: l)
+| sc_u a b c d l : is_hex a = true -> is_hex b = true -> is_hex c = true -> is_hex d = true ->
+    str_chars l -> str_chars (92 :: 117 :: a :: b :: c :: d :: l).
+(* a JSON string literal *)
+Definition string_literal (t : list N) : Prop := exists body, t = 34 :: body ++ [34] /\ str_chars body.
+
 (* string literal at the head of l *)
 Definition read_string (l : list N) : option (list N * list N) :=
   match l with
